@@ -332,7 +332,8 @@ def run_vacuity(unit):
     path = os.path.join(CACHE, 'gen', unit + '_vacuity.rs')
     with open(path, 'w') as f:
         f.write(g.text())
-    p = subprocess.run(['verus', path, '--multiple-errors', '50', '--error-format=json', '--rlimit', '30'],
+    p = subprocess.run(['verus', path, '--multiple-errors', '1', '--error-format=json', '--rlimit', '8',
+                        '--verify-function', '*__vac', '--verify-root'],
                        capture_output=True, text=True, cwd=os.path.join(CACHE, 'gen'))
     failed_lines = set()
     for line in p.stderr.split('\n'):
@@ -349,7 +350,8 @@ def run_vacuity(unit):
         for c in fi.clauses:
             if c[0] == 'VACUITY':
                 clones += 1
-                if c[3] in failed_lines:
+                # `false` must not be provable: a failed postcondition, or giving up within the resource limit, both count
+                if any(fi.gen_lo <= ln <= fi.gen_hi for ln in failed_lines):
                     ok += 1
                 else:
                     bad.append(fi.qname.replace('__vac', ''))
